@@ -1,5 +1,6 @@
 import PlzVerif.Model.HashCheck
 import PlzVerif.Generated.C35
+import PlzVerif.Generated.C01
 /-! The facts records the C35 model is instantiated with on this run (regenerated from /repo). -/
 namespace PlzVerif.HashCheck
 open PlzVerif.Generated
@@ -17,7 +18,7 @@ def genS : SFacts :=
     removeOnBuildFail := C35.buildErrRemovesOutputs,
     checkBeforeStamp := C35.calcOrder == ["OutputHash", "checkRuleHashes", "writeRuleHash"] && C35.calcGateReturnsErr,
     storeAfterCheck := C35.buildStoreAfterCheck && C35.buildCheckErrReturns,
-    keepOld := true,     -- moveOutput's keep-old branch is a C01 fact (Generated.C01.moveOutputKeepsOldOnEqualHash)
+    keepOld := C01.moveOutputKeepsOldOnEqualHash,   -- moveOutput's keep-old branch, read by the C01 extractor
     fgCheckOnlyIfChanged := C35.fgCheckInsideChanged }
 
 /-- Decidable side condition under which the C35 theorems speak about the code as it is today. -/
